@@ -1,5 +1,5 @@
 # replay of a bounded stand-in violation (C12): re-run native/c12_hw.py
 import sys
-print('Xcov n=4: S2gate on modes (0,1) was accepted')
+print('Xunitary n=4 squeezers=repeated-on-two-pairs unitary=identity interleaved=False: compiled program prepares a different Gaussian state (max moment difference 1.23)')
 print('REPLAY-VIOLATION')
 sys.exit(1)
